@@ -5,6 +5,7 @@ import sys
 
 from common import VERIF, CorrResult, Failure, run_check, use_repo
 import tifaflow_common as tc
+import tifafunc_stream as fs
 
 use_repo()
 
@@ -179,6 +180,11 @@ def correspond(rng, tier, driver):
     return res
 
 
+def tc_canon(sig):
+    import json
+    return json.dumps(sig, sort_keys=True)
+
+
 def search(rng, tier, broken, corr):
     info = {"rule": "real tifa_analysis vs a path-enumeration oracle written from the property text: if-subset - every "
                     "read classified over all branch-outcome vectors (none / Initialization Problem or read-out-of-scope "
@@ -207,7 +213,27 @@ def search(rng, tier, broken, corr):
         w2 = [w for s2, w in tc.oracle(nb2, r2) if s2 == sig]
         failures.append(Failure(sig, (w2[0] if w2 else what) + " | program: " + c2.rstrip("\n").replace("\n", " / "),
                                 {"block": small, "code": c2, "real": r2}))
-    info["evaluations"] = sink.evaluations
+    # programs WITH function definitions and calls (outside the Lean model): CPython's own executions are the oracle
+    nfun = (1500 if tier == "quick" else 25000) * (3 if broken else 1)
+    fun_first, fun_err_programs = {}, 0
+    for i in range(nfun):
+        code = fs.gen(rng)
+        found, errs = fs.judge(code, i % 2)
+        fun_err_programs += 1 if errs else 0
+        for sig, what in found:
+            fun_first.setdefault(tc_canon(sig), (sig, what, code))
+    for key, (sig, what, code) in fun_first.items():
+        def still_f(src, sig=sig):
+            return any(s2 == sig for s2, _ in fs.judge(src)[0])
+        small = fs.shrink(code, still_f)
+        w2 = [w for s2, w in fs.judge(small)[0] if s2 == sig]
+        failures.append(Failure(sig, (w2[0] if w2 else what) + " | program: " + small.rstrip("\n").replace("\n", " / "),
+                                {"code": small, "stream": "functions"}))
+    info["function_programs"] = {"evaluated": nfun, "with_a_real_NameError": fun_err_programs}
+    info["evaluations"] = sink.evaluations + nfun
+    info["rule"] += (" | functions stream: generated programs with def/global/call/if/while on input() are really executed "
+                     "under every input() answer vector; every line where NameError/UnboundLocalError is raised must "
+                     "carry an initialisation-type TIFA issue")
     info["distinct_nontrivial"] = len(sink.nontrivial)
     info["oracle_skipped_too_many_paths"] = tc.ORACLE_SKIPPED[0]
     info["samples"] = [f.replay["code"] for f in failures][:3]
